@@ -188,6 +188,10 @@ def run(ctx: Ctx):
                           f"impl={r2['impl'][di2] if di2 < len(r2['impl']) else None!r} model={model2[di2] if di2 < len(model2) else None!r}",
                           {"case": small, "lines": r2["lines"], "impl": r2["impl"], "model": model2, "first_diff": di2, "from": name})
     ctx.cov["max_nesting_depth"] = maxdepth
+    try:
+        ctx.cov["f9_frame_size_depends_on_clock_text"] = rig.f9_probe()
+    except Exception as e:  # informational only
+        ctx.notes.append(f"F-9 probe failed: {type(e).__name__}: {e}")
     ctx.cov["traces_showing_only_open_findings"] = known
     ctx.oblige("rig:R-link agrees on every trace and the oracle holds", "correspondence", agree == total,
                f"{total - agree} of {total} traces disagree or break the oracle")
